@@ -8,7 +8,9 @@
 (*           pub fn im() = <reference evaluated inside m> }                *)
 (*   mod k { [pub] use m::<re-exported member>                             *)
 (*           pub fn ik() = <reference evaluated inside k> }                *)
-(*   fn dsp() = <reference evaluated at the root>  (or a call of im / ik)  *)
+(*   [let r = <reference evaluated in a global initialiser>]               *)
+(*   fn dsp() = <reference evaluated at the root>  (or a call of im / ik,  *)
+(*              or r)                                                      *)
 (*                                                                         *)
 (* with every choice of the pub flags, of what k re-exports and whether    *)
 (* publicly, of the form of the reference and of the position from which   *)
@@ -27,9 +29,11 @@ Forms == {"qual",       \* m::a() / m::b() / m::n::a()
           "wild",       \* use m::* ... target()        (use m::n::* for na)
           "reexport",   \* k::target()                   (k re-exports it)
           "shadow",     \* use m::target; let target = | | 7; target()
+          "bare",       \* a() / b() with no import at all: the name of a module member is not in scope outside
           "facade"}     \* m itself re-exports a member of its own (private or public) submodule:
                         \* mod m { [pub] mod n { [pub] fn c = 3 }  [pub] use n::c }  ...  m::c()
-Positions == {"root", "ink", "inm"}
+Positions == {"root", "ink", "inm",
+              "glet"}    \* a global `let r = <reference>` right after the modules (dsp returns r)
 
 VARIABLES cfg, phase
 vars == <<cfg, phase>>
@@ -56,6 +60,8 @@ Applicable(c) ==
   /\ (c.form = "facade" => c.reexp = "none" /\ c.target = "na" /\ c.pos = "root")
   /\ (c.form = "usemulti" => c.target \in {"a", "b"})
   /\ (c.pos = "inm" => c.form \in {"qual"})                                 \* inside m: plain sibling references
+  /\ (c.pos = "glet" => c.form \in {"qual", "bare"})
+  /\ (c.form = "bare" => c.pos \in {"root", "glet"} /\ c.target \in {"a", "b"})
 
 (* the answer the language promises: [ok |-> TRUE, val |-> constant] or [ok |-> FALSE] *)
 Resolve(c) ==
@@ -64,6 +70,7 @@ Resolve(c) ==
          \* must itself be refused is not something the property settles: either answer is allowed
          IF Visible(c, c.target, c.pos) THEN [ok |-> TRUE, val |-> 7, either |-> FALSE]
          ELSE [ok |-> TRUE, val |-> 7, either |-> TRUE]
+    [] c.form = "bare" -> [ok |-> FALSE, val |-> 0, either |-> FALSE]
     [] c.form = "usemulti" ->
          \* use m::{a, b}: the member that is used must be visible; an invisible member that is
          \* imported alongside but never used may or may not be refused
